@@ -178,7 +178,7 @@ Example src_accept_example :
 Proof. vm_compute. reflexivity. Qed.
 
 Example reject_examples :
-  forall s, In s ["a.1}}"; "f(a,)}}"; "0123}}"; "1.}}"; "TRUE(}}"; "a b}}"; "(a}}"; "a[}}"; "1e}}"; "'abc}}"; "a = b}}"; "a & b}}"]%string ->
+  forall s, In s ["a.1}}"; "f(a,)}}"; "0123}}"; "1.}}"; "TRUE(}}"; "a b}}"; "(a}}"; "a[}}"; "1e}}"; "'abc}}"; "a = b}}"; "a & b}}"; "(f)(a)}}"; "a.b(c)}}"; "a.*(c)}}"; "!}}"; "a ||}}"; "f(,a)}}"]%string ->
   forall e, parse_src true int32_lit (fun _ => true) s <> OAccept e.
 Proof.
   intros s H e. cbn in H.
